@@ -929,7 +929,26 @@ func (c *Ctx) typeCodeRule(r *Report, rule string, walker *ssa.Function) {
 				}
 			}
 			key := fmt.Sprintf("%s: test on a type code `%s`", c.FuncName(fn), text)
-			if c.onlyErrorExit(b.Succs[0]) || c.onlyErrorExit(b.Succs[1]) {
+			e0, e1 := c.onlyErrorExit(b.Succs[0]), c.onlyErrorExit(b.Succs[1])
+			// "type == K" with the error on the equal side refuses the one (implemented) type K in some malformed
+			// situation; every other code, the unsupported ones included, takes the other side
+			equalSideOnly := false
+			if bo, ok := iff.Cond.(*ssa.BinOp); ok && (bo.Op == token.EQL || bo.Op == token.NEQ) {
+				_, kx := bo.X.(*ssa.Const)
+				_, ky := bo.Y.(*ssa.Const)
+				if kx != ky {
+					eqSucc := 0
+					if bo.Op == token.NEQ {
+						eqSucc = 1
+					}
+					if (eqSucc == 0 && e0 && !e1) || (eqSucc == 1 && e1 && !e0) {
+						equalSideOnly = true
+					}
+				}
+			}
+			if equalSideOnly {
+				r.ok(rule, key, c.InstrPos(iff), "the error side is the side where the code equals one particular constant: no other code, in particular no unsupported one, is refused by it", true)
+			} else if e0 || e1 {
 				r.bad(rule, key, c.InstrPos(iff), "one side of this test only returns an error: a datagram is refused because of the type code of a payload, so an unsupported non-critical payload in this position is not skipped")
 			} else {
 				r.ok(rule, key, c.InstrPos(iff), "selects a decoder / a path, both sides continue", true)
